@@ -269,6 +269,7 @@ def run(chk):
     rxselect(chk, repo, fd, codes, meths)
     # ---- connhdr ---------------------------------------------------------------------------------------------------------------------
     connhdr(chk, repo)
+    hunt3_rules(chk, repo)
     # ---- eof -----------------------------------------------------------------------------------------------------------------------------
     wb = repo.func(REQ, "ClientRequest._write_bytes")
     t = [t for t in ast.walk(wb.node) if isinstance(t, ast.Try) and t.orelse]
@@ -374,6 +375,63 @@ def rxselect(chk, repo, fd, codes, meths):
         chk.ok("C02.rxselect", init, "HttpPayloadParser: no-body > chunked > length > until-EOF, in this order")
     else:
         chk.violation("C02.rxselect", init, "if not response_with_body / elif chunked / elif length is not None", str(order), "the body parser's mode selection order changed (chunked must win over length)")
+
+
+def hunt3_rules(chk, repo):
+    """Rules written after the third defect hunt (F168, F169)."""
+    # ---- C02.connhdr.nokeepalive: a server that keeps no idle connection (keepalive_timeout 0) does not announce a persistent one -------
+    # start() arms the idle timer at loop.time() + keepalive_timeout: with 0 the connection is closed in the next loop iteration, so the
+    # request has to be built from a message that says should_close (request.keep_alive False -> `Connection: close` / no keep-alive token).
+    st = repo.func(WPROTO, "RequestHandler.start")
+    loop = next((w for w in ast.walk(st.node) if isinstance(w, ast.While)), None)
+    arm = [c for c, _b in K.exprs(st, "loop.time() + keepalive_timeout")] + [c for c, _b in K.exprs(st, "$L.time() + self._keepalive_timeout")]
+    fac = [c for c, _b in K.exprs(st, "self._request_factory($M, ...)")]
+    if loop is None or not arm or not fac:
+        chk.analysis_error("C02.connhdr.nokeepalive: start() loop / keep-alive timer / request factory not found")
+    else:
+        marg = norm.raw(fac[0].args[0])
+        tname = norm.raw(arm[0].right)
+        marks = [a for a in ast.walk(loop) if isinstance(a, ast.Assign) and norm.raw(a.targets[0]) == marg and M.match(M.compile_pat("$M._replace(should_close=True)"), a.value) is not None
+                 and a.lineno < fac[0].lineno]
+        good = None
+        for a in marks:
+            par = getattr(a, "parent", None)
+            if not isinstance(par, ast.If) or getattr(par, "parent", None) is not loop or a not in par.body:
+                continue
+            try:
+                vals = [Evaluator({tname: v, marg + ".should_close": False}).ev(par.test) for v in (0, 0.0)]
+            except AnalysisError:
+                continue
+            if all(vals):
+                good = par
+        if good is not None:
+            chk.ok("C02.connhdr.nokeepalive", good, f"start(): with a zero {tname} the request is built from message._replace(should_close=True): the response says close, as the loop then does")
+        else:
+            chk.violation("C02.connhdr.nokeepalive", st, "close_time = loop.time() + keepalive_timeout", f"if not {tname}: {marg} = {marg}._replace(should_close=True)",
+                          "with keepalive_timeout=0 the idle timer fires at once and the connection is closed while the response announced a persistent one (no Connection: close): the client pools a dead connection and its next request fails")
+    # ---- C02.file.chunked: FileResponse declares a Content-Length only when it is not chunked ----------------------------------------
+    fr = repo.cls("aiohttp/web_fileresponse.py", "FileResponse")
+    n = 0
+    for name, m in fr.methods.items():
+        for a in ast.walk(m.node):
+            if isinstance(a, ast.Assign) and norm.raw(a.targets[0]) == "self.content_length" and norm.raw(a.value) != "None":
+                n += 1
+                if PC.has_lit(PC.pc(a), "self._chunked", False) is not None:
+                    chk.ok("C02.file.chunked", a, f"FileResponse.{name}: content_length is set only when chunked encoding is off")
+                else:
+                    chk.violation("C02.file.chunked", a, K.short(a), "if not self._chunked:", "a FileResponse with enable_chunked_encoding() sets content_length: the setter raises RuntimeError, prepare() fails and no response is sent "
+                                  "(or, with a plain header write, both Content-Length and Transfer-Encoding: chunked are announced)")
+    chk.expect_count("C02.file.chunked", n, 1, "content_length assignments in FileResponse")
+    sf = fr.methods["_sendfile"]
+    raw = [c for c in prog.calls_in(sf.node) if isinstance(c.func, ast.Attribute) and c.func.attr == "sendfile"]
+    for c in raw:
+        lits = {str(l) for l in PC.units(PC.pc(c))}
+        miss = [w for w in ("!(self._chunked)", "!(self.compression)") if w not in lits]
+        if not miss:
+            chk.ok("C02.file.chunked", c, "sendfile() (raw file bytes on the socket, past the writer) only when the writer frames nothing: not chunked, not compressed")
+        else:
+            chk.violation("C02.file.chunked", c, K.short(c), " and ".join(miss), "sendfile() puts the raw file bytes on the socket although the head announced a framed body (chunk sizes / compressed coding are skipped)")
+    chk.expect_count("C02.file.chunked", len(raw), 2, "sendfile() calls in FileResponse._sendfile")
 
 
 def connhdr(chk, repo):
